@@ -80,3 +80,32 @@ Proof.
   intros [|c0 r]; [exact I|]. split; [intro Hv; discriminate|].
   apply Forall_forall. intros c _ Hv. discriminate.
 Qed.
+
+(* ---- known finding C06:list-item-removed-next-to-glued-item ------------------------------------------------
+   Sep is a hypothesis a parsed document need not meet: `custom "x" 1 "s"2` is accepted although no separator stands
+   between "s" and 2 (cell of `2`: empty gap).  _del_tokens removes the gap and the body of the deleted cell and
+   nothing else, so the bodies of the two neighbours - kept apart by the blank and the deleted item before - are
+   adjacent tokens afterwards (`1` `2`, which lex as `12`).  Layout (C03) is kept; separation was never there. *)
+Definition glued_doc : doc :=
+  [mktok 1 KOther [34;120;34]; mktok 2 KPlaceholder []; mktok 3 KWhitespace [32]; mktok 4 KOther [49];
+   mktok 5 KWhitespace [32]; mktok 6 KOther [34;115;34]; mktok 7 KOther [50]; mktok 8 KNewline [10]].
+Definition glued_items : list item := [(4, 4); (6, 6); (7, 7)].
+
+Theorem del_glued_refuted :
+  layout_b 2 glued_doc glued_items = true /\
+  (exists pre pht a m b post, glued_doc = lay pre pht [a; m; b] post /\ vis (c_gap m) = true /\ c_gap b = [] /\
+     ~ Sep [(KWhitespace, [32])] [(KWhitespace, [32])] [a; m; b]) /\
+  fst (del_tokens 2 glued_doc glued_items 1 2) =
+    [mktok 1 KOther [34;120;34]; mktok 2 KPlaceholder []; mktok 3 KWhitespace [32]; mktok 4 KOther [49];
+     mktok 7 KOther [50]; mktok 8 KNewline [10]] /\
+  snd (del_tokens 2 glued_doc glued_items 1 2) = Ok tt.
+Proof.
+  split; [vm_compute; reflexivity|]. split; [|split; vm_compute; reflexivity].
+  exists [mktok 1 KOther [34;120;34]], (mktok 2 KPlaceholder []),
+    (mkcell [mktok 3 KWhitespace [32]] [mktok 4 KOther [49]]),
+    (mkcell [mktok 5 KWhitespace [32]] [mktok 6 KOther [34;115;34]]),
+    (mkcell [] [mktok 7 KOther [50]]), [mktok 8 KNewline [10]].
+  split; [reflexivity|]. split; [reflexivity|]. split; [reflexivity|].
+  intros [_ HF]. inversion HF as [|x l _ HF2]; subst. inversion HF2 as [|y l2 Hb _]; subst.
+  specialize (Hb eq_refl). discriminate Hb.
+Qed.
